@@ -109,6 +109,13 @@ func items(tier string) []item {
 	add(2, mk("D/connect-close", 15, "instant", "shutdown", 1, s3))
 	add(2, mk("D/connect-close-none", srvx.CbClose, "instant", "none", 0, s3))
 	add(1, mk("D/two-exchanges", 15, "instant", "shutdown", 4, s4))
+	// the client leaves before its reply can be written (the server's write fails), alone and against a shutdown
+	for _, cb := range []int{15, srvx.CbClose, 0} {
+		add(2, mk("D/leave-before-reply", cb, "sleep10", "none", 0, []string{"dial", "send", "close"}))
+		add(2, mk("D/leave-before-reply+shutdown", cb, "sleep10", "shutdown", 2, []string{"dial", "send", "close"}))
+		add(1, mk("D/half-request-then-leave", cb, "instant", "shutdown", 2, []string{"dial", "write:000100000006", "close"}))
+		add(1, mk("D/half-request-idle-shutdown", cb, "instant", "shutdown", 2, []string{"dial", "write:000100000006", "quiesce"}))
+	}
 	if thorough {
 		add(2, mk("D/two-exchanges", 15, "sleep10", "shutdown", 4, s4))
 		add(2, mk("D/idle-then-cancel", 15, "instant", "cancel", 3, s2))
